@@ -4,6 +4,8 @@ import WfProofs.LifecycleCover
 import WfProofs.LifecycleRow
 import WfProofs.LifecycleReplay
 import WfProofs.LifecycleIdle
+import WfProofs.DbosTimer
+import WfModel.GenDbosTimer
 /-!
 # C36 — idle runs are released after the idle timeout and reloaded on demand
 
@@ -467,3 +469,122 @@ example : ∀ a ∈ [BAct.create, .uSpawn 0, .uTry 0, .rSpawn 0, .rBegin 0, .uSe
   intro a ha i h
   subst h
   simp at ha
+
+/-! ## DBOS stack: *when* a release is attempted (M7 (C), `WfModel/DbosTimer.lean`)
+
+The DBOS decorator has no `idle_since` / `elapsed` test: that a release is attempted only after `idle_timeout` of
+idleness rests entirely on the bookkeeping of one timer task per run. -/
+
+/-- the sources the atomic actions of M7 (C) are cut along, re-read on every run: `_schedule_deferred_release` is
+cancel + spawn + register without an await; `_cancel_deferred_release` pops the registration and cancels the task
+unless it is done, without an await; it is called by `wait_receive` (a tick reached the run), by `_do_resume` and by
+`_schedule_deferred_release`, by nobody else; announcements are the only scheduler; nothing else touches the
+registry; `_deferred_release` is sleep, pop, release (`C36_source_shape`).  In-process stack: `_abort_inner_run`
+(the `release` of M7 (A)) looks the inner adapter up, returns if there is none, aborts it; `_spawn_task` is shared. -/
+theorem C36_dbos_timer_source_shape :
+    GenDbosTimer.shape_dbos_schedule =
+      ["call(self._cancel_deferred_release)", "call(self._deferred_release)", "call(self._spawn_task)",
+       "call(setitem:self._deferred_release_tasks)"] ∧
+    GenDbosTimer.shape_dbos_cancel =
+      ["call(_.done)", "call(self._deferred_release_tasks.pop)", "if(And,IsNot,Not;done,None,_.done)", "call(_.cancel)", "endif"] ∧
+    GenDbosTimer.kind_dbos_schedule = "sync" ∧ GenDbosTimer.kind_dbos_cancel = "sync" ∧
+    GenDbosTimer.shape_dbos_spawn =
+      ["call(_.add_done_callback)", "call(asyncio.create_task)", "call(self._background_tasks.add)", "return"] ∧
+    GenDbosTimer.shape_ir_spawn = GenDbosTimer.shape_dbos_spawn ∧
+    GenDbosTimer.cancelCallers =
+      ["DBOSIdleReleaseDecorator._do_resume", "DBOSIdleReleaseDecorator._schedule_deferred_release",
+       "_DBOSIdleReleaseInternalRunAdapter.wait_receive"] ∧
+    GenDbosTimer.scheduleCallers = ["_DBOSIdleReleaseInternalRunAdapter.write_to_event_stream"] ∧
+    GenDbosTimer.registryUsers =
+      ["DBOSIdleReleaseDecorator.__init__", "DBOSIdleReleaseDecorator._cancel_deferred_release",
+       "DBOSIdleReleaseDecorator._deferred_release", "DBOSIdleReleaseDecorator._schedule_deferred_release"] ∧
+    GenDbosTimer.shape_ir_abort =
+      ["try", "call(self._decorated.get_external_adapter)", "except", "return", "endtry", "if(;V2RuntimeCompatibilityShim)",
+       "call(_.abort)", "else", "raise", "endif"] ∧ GenDbosTimer.kind_ir_abort = "sync" := by
+  refine ⟨by decide, by decide, by decide, by decide, by decide, by decide, by decide, by decide, by decide, by decide, by decide⟩
+
+/-- **one timer per run, and it is the registered one** — for every sequence of idle announcements, ticks reaching
+the run, resumes, timer expiries, finished releases and time steps: a timer task that is still asleep is the task
+registered under the run id, it was armed by the *last* idle announcement (at `a`, due exactly `a + idle_timeout`) and
+no tick has reached the run and no resume has happened since; hence at most one timer sleeps; conversely whatever is
+registered is asleep — never a task that is already inside `_release_idle_handler` — so the `pop` in `_deferred_release`
+only ever removes the popping task's own registration (`stray = 0`) and no `_cancel_deferred_release` ever reaches
+into a running release (`abandoned = 0`; the timer-side premise of `C36_dbos_release_not_abandoned`). -/
+theorem C36_dbos_timer_discipline (tau : Nat) (acts : List DbosTimer.Act) :
+    let s := DbosTimer.run (DbosTimer.init tau) acts
+    (∀ j a d, s.tasks j = .sleeping a d →
+        s.reg = some j ∧ d = a + tau ∧ s.lastIdle = some a ∧ s.ticksSince = 0 ∧ s.pending = true ∧ a ≤ s.now) ∧
+    (∀ j j' a d a' d', s.tasks j = .sleeping a d → s.tasks j' = .sleeping a' d' → j = j') ∧
+    (∀ j, s.reg = some j → ∃ a d, s.tasks j = .sleeping a d) ∧
+    s.stray = 0 ∧ s.abandoned = 0 := by
+  intro s
+  have hinv : DbosTimer.Inv s := DbosTimer.Inv.run acts _ (DbosTimer.Inv.init tau)
+  have htau : s.tau = tau := DbosTimer.run_tau acts _
+  refine ⟨?_, ?_, hinv.rg, hinv.stray0, hinv.abandoned0⟩
+  · intro j a d hj
+    have := hinv.sl j a d hj
+    rw [htau] at this
+    exact this
+  · intro j j' a d a' d' h1 h2
+    have e1 := (hinv.sl j a d h1).1
+    have e2 := (hinv.sl j' a' d' h2).1
+    rw [e1] at e2
+    exact Option.some.inj e2
+
+/-- non-vacuity: idle at 0, a tick at 50 cancels timer 0, idle again at 120 arms timer 1, a second announcement at 130
+replaces it by timer 2 (due 330): exactly one sleeper, the registered one -/
+example :
+    let s := DbosTimer.run (DbosTimer.init 200) [.idle, .advance 50, .tick, .advance 70, .idle, .advance 10, .idle]
+    s.tasks 0 = .cancelled ∧ s.tasks 1 = .cancelled ∧ s.tasks 2 = .sleeping 130 330 ∧ s.reg = some 2 ∧ s.next = 3 := by decide
+
+/-- **a release is attempted only after `idle_timeout` of undisturbed idleness** (DBOS stack, every history): whenever
+a timer task leaves its sleep and enters `_release_idle_handler` (→ `begin_release`), an idle announcement has been
+made, at least `idle_timeout` has passed since the **last** one, and no tick has reached the run and no resume has
+happened since that announcement.  (Unlike the in-process stack this needs no hypothesis: the bookkeeping is
+synchronous, there is no query→decide window.  What can still happen *after* the attempt has begun — a tick admitted
+while the row said `active` arriving during the CAS — is C26's `tick_arrived_during_release`.) -/
+theorem C36_dbos_release_attempt_after_timeout (tau : Nat) (acts : List DbosTimer.Act) :
+    ∀ r ∈ (DbosTimer.run (DbosTimer.init tau) acts).attempts,
+      ∃ a, r.idle = some a ∧ a + tau ≤ r.at_ ∧ r.ticks = 0 ∧ r.at_ ≤ (DbosTimer.run (DbosTimer.init tau) acts).now := by
+  intro r hr
+  have hinv := DbosTimer.Inv.run acts _ (DbosTimer.Inv.init tau)
+  have htau : (DbosTimer.run (DbosTimer.init tau) acts).tau = tau := DbosTimer.run_tau acts _
+  have := hinv.att r hr
+  rw [htau] at this
+  exact this
+
+/-- non-vacuity: the re-announcement case — the attempt comes at 320 = 120 + 200, not at 200 -/
+example :
+    (DbosTimer.run (DbosTimer.init 200) [.idle, .advance 50, .tick, .advance 70, .idle, .advance 80, .fire 0, .advance 120, .fire 1]).attempts =
+      [{ at_ := 320, idle := some 120, ticks := 0, task := 1 }] := by decide
+
+/-- **an idle, undisturbed DBOS run always has its release attempt ahead of it**: in every reachable state in which the
+last thing that happened to the run (among announcements, received ticks, resumes, timer expiries) is an idle
+announcement, at `a`, the registered timer task sleeps until exactly `a + idle_timeout`; letting that much time pass and
+running it is enabled and is a release attempt at `a + idle_timeout` on that announcement with no tick since, the task
+having de-registered itself before it enters the release. -/
+theorem C36_dbos_timer_cover (tau : Nat) (acts : List DbosTimer.Act) :
+    let s := DbosTimer.run (DbosTimer.init tau) acts
+    s.pending = true →
+      ∃ j a, s.lastIdle = some a ∧ s.ticksSince = 0 ∧ s.reg = some j ∧ s.tasks j = .sleeping a (a + tau) ∧
+        (let s' := DbosTimer.run s [.advance (a + tau - s.now), .fire j]
+         s'.attempts = s.attempts ++ [{ at_ := s.now + (a + tau - s.now), idle := some a, ticks := 0, task := j }] ∧
+           s'.reg = none ∧ s'.tasks j = .releasing a ∧ s'.pending = false ∧ s'.stray = 0) := by
+  intro s hp
+  have hinv : DbosTimer.Inv s := DbosTimer.Inv.run acts _ (DbosTimer.Inv.init tau)
+  have htau : s.tau = tau := DbosTimer.run_tau acts _
+  have h1 := hinv.pend hp
+  cases hr : s.reg with
+  | none => rw [hr] at h1; cases h1
+  | some j =>
+    obtain ⟨a, d, hj⟩ := hinv.rg j hr
+    obtain ⟨_, hd, hl, ht, _, _⟩ := hinv.sl j a d hj
+    rw [htau] at hd
+    subst hd
+    refine ⟨j, a, hl, ht, rfl, hj, ?_⟩
+    have hle : a + tau ≤ s.now + (a + tau - s.now) := by omega
+    have hs0 := hinv.stray0
+    simp [DbosTimer.run, DbosTimer.stepD, DbosTimer.step, hj, hle, hl, ht, hr, hs0, DbosTimer.upd_apply]
+
+/-- non-vacuity (`pending` holds right after an announcement, also a repeated one) -/
+example : (DbosTimer.run (DbosTimer.init 200) [.idle, .advance 50, .tick, .advance 70, .idle]).pending = true := by decide
